@@ -191,9 +191,11 @@ func (e *verifEnv) clearPeer(peer int) {
 	e.removed[peer] = true
 }
 
-// checkAll states the property on the current state.
+// checkAll states the property on the current state. Conditions over
+// symbolic times are conjoined into few assertions (one solver query each).
 func (e *verifEnv) checkAll() {
 	// 1. pipeline limit per peer over unexpired pending requests.
+	limitsOK := true
 	for p := 0; p < verifNPeers; p++ {
 		n := 0
 		for _, r := range e.reqs {
@@ -201,10 +203,12 @@ func (e *verifEnv) checkAll() {
 				n += verif.Ite(e.unexpiredPending(r), 1, 0)
 			}
 		}
-		verif.Assert("outstanding-within-pipeline-limit", n <= e.limit[p])
+		limitsOK = verif.And(limitsOK, n <= e.limit[p])
 	}
+	verif.Assert("outstanding-within-pipeline-limit", limitsOK)
 	// 2. outside endgame: at most one unexpired outstanding request per piece.
 	if !e.endgame {
+		oneOK := true
 		for i := 0; i < e.npieces; i++ {
 			n := 0
 			for _, r := range e.reqs {
@@ -212,8 +216,9 @@ func (e *verifEnv) checkAll() {
 					n += verif.Ite(e.unexpiredPending(r), 1, 0)
 				}
 			}
-			verif.Assert("one-outstanding-request-per-piece-outside-endgame", n <= 1)
+			oneOK = verif.And(oneOK, n <= 1)
 		}
+		verif.Assert("one-outstanding-request-per-piece-outside-endgame", oneOK)
 	}
 	// 3. pending report: only pieces for which the peer has a live request that
 	// was not marked; nothing for a removed peer.
@@ -235,24 +240,27 @@ func (e *verifEnv) checkAll() {
 	// 4. failed report == ghost failed multiset, per (peer, piece).
 	failed := e.m.GetFailedRequests()
 	var cnt [verifNPeers][8]int
+	statusOK := true
 	for _, f := range failed {
 		p := verifPeerIndex(f.PeerID)
 		verif.Assert("failed-report-known-peer", p >= 0)
 		verif.Assert("failed-report-known-piece", f.Piece >= 0 && f.Piece < e.npieces)
-		verif.Assert("failed-report-status-is-a-failure", verif.Or(f.Status == StatusExpired, f.Status == StatusUnsent, f.Status == StatusInvalid))
 		verif.Assert("removed-peer-has-no-failed", !e.removed[p])
+		statusOK = verif.And(statusOK, verif.Or(f.Status == StatusExpired, f.Status == StatusUnsent, f.Status == StatusInvalid))
 		cnt[p][f.Piece]++
-		// status, where the model has exactly one candidate
+		// exact status, where the model has exactly one candidate
 		if e.liveCount(p, f.Piece) == 1 {
 			for _, r := range e.reqs {
 				if r.alive && r.peer == p && r.piece == f.Piece {
 					want := verif.Ite(r.mark != int(StatusPending), r.mark, int(StatusExpired))
-					verif.Assert("failed-report-status", int(f.Status) == want)
+					statusOK = verif.And(statusOK, int(f.Status) == want)
 				}
 			}
 		}
 	}
+	verif.Assert("failed-report-status", statusOK)
 	verif.Cover("some-failed", len(failed) > 0)
+	exact := true
 	for p := 0; p < verifNPeers; p++ {
 		for i := 0; i < e.npieces; i++ {
 			n := 0
@@ -261,9 +269,10 @@ func (e *verifEnv) checkAll() {
 					n += verif.Ite(e.failed(r), 1, 0)
 				}
 			}
-			verif.Assert("failed-report-lists-exactly-failed-requests", cnt[p][i] == n)
+			exact = verif.And(exact, cnt[p][i] == n)
 		}
 	}
+	verif.Assert("failed-report-lists-exactly-failed-requests", exact)
 }
 
 // step: symbolic clock advance, then one symbolic operation.
@@ -303,14 +312,16 @@ func verifHistory(policy string) {
 	verif.Note("ClearPeer on a peer holding two live requests for one piece is cut here (FINDINGS.md; checked by VerifManagerFindingClearPeer)")
 	verif.Note("draws of math/rand.Intn in the default policy are unknowns; native replay cannot force them")
 	e := verifNewEnv(policy, verif.Bound("pieces", 2, 3))
-	k := verif.Bound("steps", 3, 5)
+	k := verif.Bound("steps", 2, 4)
 	for i := 0; i < k; i++ {
 		e.step()
 		e.checkAll()
 	}
 	// let any amount of time pass at the end
-	e.advance()
-	e.checkAll()
+	if verif.Bound("final_advance", 0, 1) == 1 {
+		e.advance()
+		e.checkAll()
+	}
 }
 
 // VerifManagerHistoryDefault: histories under the default (random) policy.
